@@ -73,16 +73,18 @@ def autocorr_1d_float(data):
     if nxy == 0:
         return result
 
-    A = nxy * Sxy - Sx_ * Sy_
+    # covariance of the mean-filled vectors (a cell where either value is missing contributes 0),
+    #   i.e. Sum((Xi - Sx/nx) * (Yi - Sy/ny)) over the valid pairs, times nx * ny
+    A = nx * ny * Sxy - ny * Sx * Sy_ - nx * Sy * Sx_ + nxy * Sx * Sy
 
     # var(X[np.isfinite(X)]) Vairance of X excluding missing values
     var_X = nx * Sxx - Sx * Sx
     var_Y = ny * Syy - Sy * Sy
 
     # var(X) where missing values were replaced with mean,
-    #   i.e. X[X==nodata] = mean(X[X!=nodata])
-    var_X = var_X * nx / N
-    var_Y = var_Y * ny / N
+    #   i.e. X[X==nodata] = mean(X[X!=nodata]); same scale as A
+    var_X = var_X * nx
+    var_Y = var_Y * ny
 
     if var_X < 1e-8 or var_Y < 1e-8:
         return result
@@ -155,16 +157,23 @@ def autocorr_1d_int(data, nodata):
     if nxy == 0:
         return result
 
-    A = nxy * float64(Sxy) - float64(Sx_) * float64(Sy_)
+    # covariance of the mean-filled vectors (a cell where either value is missing contributes 0),
+    #   i.e. Sum((Xi - Sx/nx) * (Yi - Sy/ny)) over the valid pairs, times nx * ny
+    A = (
+        float64(nx) * float64(ny) * float64(Sxy)
+        - float64(ny) * float64(Sx) * float64(Sy_)
+        - float64(nx) * float64(Sy) * float64(Sx_)
+        + float64(nxy) * float64(Sx) * float64(Sy)
+    )
 
     # var(X[np.isfinite(X)]) Vairance of X excluding missing values
     var_X = nx * float64(Sxx) - float64(Sx) * float64(Sx)
     var_Y = ny * float64(Syy) - float64(Sy) * float64(Sy)
 
     # var(X) where missing values were replaced with mean,
-    #   i.e. X[X==nodata] = mean(X[X!=nodata])
-    var_X = var_X * nx / N
-    var_Y = var_Y * ny / N
+    #   i.e. X[X==nodata] = mean(X[X!=nodata]); same scale as A
+    var_X = var_X * nx
+    var_Y = var_Y * ny
 
     if var_X < 1e-8 or var_Y < 1e-8:
         return result
